@@ -153,8 +153,8 @@ def _s_body(g):
         return call('findall', [g[1], _goal_term(g[2]), g[3]])
     if k == 'calln':
         return call('call', [g[1]] + g[2])
-    if k == 'pyp':
-        return call('pyp', [g[1]])
+    if k in ('pyp', 'pyt'):
+        return call(k, [g[1]])
     raise ValueError(g)
 
 def _s_program(clauses):
@@ -173,6 +173,8 @@ def _model_prog(case, io):
         return None
     if io['spec'] is None:
         return None
+    if _has_goal(case, 'pyt'):
+        return None             # the second user predicate is not in the machine program: oracle and reference interpreter only
     if io['refend'].startswith('raised') and not (case.get('pyend') and io['refend'] == 'raised:Boom'):
         return None
     db = {}
@@ -463,6 +465,49 @@ MODES = ['exhaust', 'close', 'close', 'del', 'del', 'consumer_raise', 'throw', '
 PYKINDS = ['genfunc', 'genexpr', 'chain', 'cursor', 'cursor', 'cursor_throw', 'cursor_del']
 PYREGS = ['plain', 'plain', 'lambda', 'partial', 'method', 'object', 'wrapped']
 
+def _map_goals(g, f, safe=True):
+    """the body AST with f applied to every user-predicate goal ['pyp', t]; safe: a conjunction may stand at this place of the
+    program text (not as the argument of \\+, once/1, findall/3, which are printed without parentheses)"""
+    if g is None:
+        return None
+    k = g[0]
+    if k == 'pyp':
+        return f(g, safe)
+    if k == 'and':
+        return ['and', [_map_goals(x, f, safe) for x in g[1]]]
+    if k in ('or',):
+        return [k, _map_goals(g[1], f, True), _map_goals(g[2], f, True)]
+    if k == 'ite':
+        return [k, _map_goals(g[1], f, True), _map_goals(g[2], f, True), _map_goals(g[3], f, True)]
+    if k in ('not', 'once'):
+        return [k, _map_goals(g[1], f, False)]
+    if k == 'findall':
+        return [k, g[1], _map_goals(g[2], f, False), g[3]]
+    return g
+
+def _has_goal(case, kind):
+    found = []
+    def look(g):
+        if g is None:
+            return
+        if g[0] == kind:
+            found.append(1)
+        elif g[0] == 'and':
+            for x in g[1]: look(x)
+        elif g[0] in ('or',):
+            look(g[1]); look(g[2])
+        elif g[0] == 'ite':
+            look(g[1]); look(g[2]); look(g[3])
+        elif g[0] in ('not', 'once'):
+            look(g[1])
+        elif g[0] == 'findall':
+            look(g[2])
+    for c in case['clauses']:
+        look(c[2])
+    return bool(found)
+
+PYTKINDS = ['list', 'tuple', 'iter', 'ypobj', 'gen']
+
 def _py_variation(case, pgen=0.5):
     """round 4: kind of iterable the user predicate returns and kind of callable that is registered; drawn from a generator of
     its own (seeded by the case), so that the cases of earlier rounds stay what they were"""
@@ -474,7 +519,15 @@ def _py_variation(case, pgen=0.5):
         # does not call close() either (PEP 380), so the object cannot know; such a predicate must offer throw() (see notes)
         kind = 'cursor_throw'
     case['pykind'] = kind
-    case['pyopt'] = {'reg': r.choice(PYREGS), 'closeraise': kind.startswith('cursor') and kind != 'cursor_del' and r.random() < 0.3}
+    case['pyopt'] = {'reg': r.choice(PYREGS), 'closeraise': kind.startswith('cursor') and kind != 'cursor_del' and r.random() < 0.3,
+                     'pyt': r.choice(PYTKINDS)}
+    if r.random() < 0.35 and case['mode'] != 'pyraise' and not case.get('pyend'):
+        # some of the calls of the user predicate become calls of a second one that binds nothing and returns a list / a tuple / an
+        # iterator over a list / the engine's YPSuccess or YPFail object / a generator (pyt(X): true iff X is the atom a); preferably
+        # directly after a pyp goal (pyp(X), pyt(X): the first answer of pyp passes, the second does not)
+        def conv(g, safe):
+            return ['pyt', g[1]] if r.random() < 0.4 else (['and', [g, ['pyt', g[1]]]] if safe and r.random() < 0.5 else g)
+        case['clauses'] = [[c[0], c[1], _map_goals(c[2], conv)] for c in case['clauses']]
     return case
 
 def _gen_prog_case(rng, focus=False):
@@ -659,6 +712,20 @@ def _impl_prog(case):
                     yield False
             if case.get('pyend'):
                 raise _Boom('pyp-end')
+    def pyt(x):
+        v = E.get_value(x)
+        ok = isinstance(v, E.Atom) and v.name() == 'a'
+        kind = pyopt.get('pyt') or 'list'
+        if kind == 'list':
+            return [False] if ok else []
+        if kind == 'tuple':
+            return (False,) if ok else ()
+        if kind == 'iter':
+            return iter([False] if ok else [])
+        if kind == 'ypobj':
+            return E.YPSuccess() if ok else E.YPFail()
+        return (False for _ in range(1 if ok else 0))
+    yp.register_function('pyt', pyt)
     reg = pyopt.get('reg') or 'plain'
     if reg == 'lambda':
         yp.register_function('pyp', lambda x: pyp(x))
